@@ -18,6 +18,7 @@ type Ctx struct {
 	children []*Ctx
 	vc       VC
 	tm       *timer
+	after    []*afterFuncEntry
 	h        objHdr
 	// ErrCalls counts Err() invocations (observability for harnesses).
 	ErrCalls int
@@ -54,12 +55,22 @@ func (c *Ctx) Value(key any) any {
 	return nil
 }
 
-// Err is deliberately NOT a scheduling point; observing a cancellation is an
-// acquire of the canceller's clock.
+// ErrIsPoint: Err() is a scheduling point (a real context's Err takes a lock / does an atomic
+// load).  This lets a cancellation land between a "has it been cancelled?" check and the
+// operation that follows it.
+var ErrIsPoint = true
+
+// Err observes the cancellation state; observing a cancellation is an acquire of the
+// canceller's clock.
 func (c *Ctx) Err() error {
 	c.ErrCalls++
 	if s := S; s != nil && !s.aborting.Load() {
-		c.h.init(s)
+		if c.h.init(s) {
+			s.seed(&c.h.chain, c.h.id)
+		}
+		if ErrIsPoint && len(s.threads) > 1 {
+			s.point(&op{kind: "ctx.Err", obj: c.h.id, enabled: func() bool { return true }})
+		}
 		s.touch(&c.h.chain, 1)
 		if c.err != nil {
 			s.cur.acquire(c.vc)
@@ -77,6 +88,36 @@ func (c *Ctx) cancel(err error, point bool) {
 }
 
 func (c *Ctx) cancelNow(err error) { c.cancelBy(err, nil) }
+
+// CtxAfterFunc mirrors context.AfterFunc for controlled contexts: f runs in its own thread once
+// the context is done; stop reports whether it prevented f from running.
+func CtxAfterFunc(ctx context.Context, f func()) (stop func() bool) {
+	c, ok := ctx.(*Ctx)
+	if !ok || S == nil {
+		return context.AfterFunc(ctx, f)
+	}
+	if c.err != nil {
+		Go("ctx.AfterFunc", f)
+		return func() bool { return false }
+	}
+	e := &afterFuncEntry{f: f}
+	c.after = append(c.after, e)
+	return func() bool {
+		if s := S; s != nil {
+			s.point(&op{kind: "ctx.AfterFunc.stop", obj: c.h.id, enabled: func() bool { return true }})
+		}
+		if e.started || e.stopped {
+			return false
+		}
+		e.stopped = true
+		return true
+	}
+}
+
+type afterFuncEntry struct {
+	f                func()
+	started, stopped bool
+}
 
 func (c *Ctx) cancelBy(err error, by VC) {
 	if c.err != nil {
@@ -102,6 +143,14 @@ func (c *Ctx) cancelBy(err error, by VC) {
 		c.vc = m.closeVC.clone()
 		if c.tm != nil {
 			c.tm.stopped = true
+		}
+	}
+	if s := S; s != nil && s.cur != nil && !s.aborting.Load() {
+		for _, e := range c.after {
+			if !e.stopped && !e.started {
+				e.started = true
+				Go("ctx.AfterFunc", e.f)
+			}
 		}
 	}
 	for _, ch := range c.children {
